@@ -156,7 +156,8 @@ prop("C12",
 FEV = ["stub: File::{sync_data, sync_all, set_len}, <File as Seek>::seek -> event-recording, nondeterministically failing models",
        "stub: <OwnedFd as Drop>::drop -> no-op (harness fds are fabricated, never opened)"]
 add("C12", H("log", "c12_o1_flush_one_syncs_before_handover", "quick", ["C12.O1"], "sync flag, size, threshold, sync failure", "one call", 600, 4, unwind=6, stubs=ENV + FEV, replay="solver-trace-only"))
-add("C12", H("log", "c12_o2_read_next_only_from_read_queue", "quick", ["C12.O2"], "12 log bytes, length, queue shape, validate", "one call", 600, 4, unwind=12, stubs=ENV + FEV + FILEREAD, replay="solver-trace-only"))
+add("C12", H("log", "c12_o2_read_next_only_from_read_queue", "thorough", ["C12.O2"], "12 log bytes, queue shape, validate flag", "one call; the real 8 KiB BufReader", 2400, 12, unwind=50, stubs=ENV + FEV + FILEREAD, replay="solver-trace-only"))
+add("C12", H("log", "c12_o2_read_next_exhausted_file", "thorough", ["C12.O2"], "empty file, queue shape", "one call", 2400, 12, unwind=50, stubs=ENV + FEV + FILEREAD, replay="solver-trace-only"))
 for nq, mx, tier in ((0, 1, "thorough"), (1, 0, "thorough"), (1, 1, "quick"), (2, 1, "quick"), (2, 2, "quick"), (2, 3, "thorough")):
     add("C12", H("log", "c12_o3a_clean_logs_q%d_m%d" % (nq, mx), tier, ["C12.O3"], "%d dirty log(s), max_count %d, failure choices symbolic" % (nq, mx), "one call", 900, 6,
                  unwind=8, stubs=ENV + FEV, replay="solver-trace-only"))
